@@ -75,6 +75,16 @@ func (x *Exec) bigFromTC(w []*Term) TupleV {
 }
 
 func registerMoreIntrinsics() {
+	// textual renderings of times / durations feed log messages only
+	for _, n := range []string{"(time.Time).String", "(time.Time).Format", "(time.Time).GoString", "(time.Duration).String", "(time.Time).AppendFormat"} {
+		nn := n
+		intrinsics[nn] = func(x *Exec, st *State, fr *Frame, fn *ssa.Function, a []Value) (Value, int) {
+			if nn == "(time.Time).AppendFormat" {
+				return ret1(a[1])
+			}
+			return ret1(x.strConst("<" + nn + ">"))
+		}
+	}
 	intrinsics["k8s.io/apimachinery/pkg/util/wait.Jitter"] = func(x *Exec, st *State, fr *Frame, fn *ssa.Function, a []Value) (Value, int) {
 		return ret1(a[0]) // any duration in [d, d+f*d): the lower end is taken; durations only feed timers outside the checks
 	}
